@@ -3,6 +3,7 @@ import Driver.C07
 import Driver.C01
 import Driver.C02
 import Driver.C20
+import Driver.C05
 
 open Driver
 
@@ -10,7 +11,8 @@ def handlers : List (List String → Option String) := [
   Driver.C07.handle,
   Driver.C01.handle,
   Driver.C02.handle,
-  Driver.C20.handle
+  Driver.C20.handle,
+  Driver.C05.handle
 ]
 
 def dispatch (toks : List String) : String :=
